@@ -486,7 +486,7 @@ func Spec() *core.Spec {
 			"systematic ladders over every item of seeded valid encodings (length in {0,1,3,4,7,8,9,true±1,true±8,parent extent(+1,+8),2^31,2^32-1}, type in {0..11,0x7F,0xFF}), " +
 			"truncation/splice/duplicate/bit-flip/random mutations, nesting ladders up to 131072 levels (1 MiB), structural JSON/XML mutants, mutated OASIS vectors, " +
 			"child-beyond-parent extent pairs with two different fillers, Stream.Recv under chunking and the HTTP handler with three content types; " +
-			"each call runs under panic, canary/mutation, determinism and hang monitors. distinct = distinct (encoding, target, input bytes)",
+			"each call runs under panic, canary/mutation, determinism and hang monitors. nested-extent documents (XML, JSON, binary) where a nested structure receives trailing children (unknown-type element, altered copies of the parent's following fields) and everything outside it must decode as in the undisturbed message; distinct = distinct (encoding, target, input bytes)",
 		Assumptions: []string{"inputs are bounded by 64 KiB except the nesting ladders (<= 1 MiB, the server's transport limit)", "the decoders' answers are not judged here (C01/C03/C18), only that they answer"},
 		Required:    []string{"decodes.ttlv", "decodes.xml", "decodes.json", "accepted", "rejected", "extent_pairs", "extent_walks", "nested_extent.accepted.mode0.xml", "nested_extent.accepted.mode0.json", "nested_extent.accepted.mode1.xml", "nested_extent.accepted.mode2.xml", "nested_extent.accepted.mode1.ttlv", "stream_recvs", "http_requests"},
 		EvalCounter: "decodes",
